@@ -35,13 +35,34 @@ IMPL_COPY_FUNC(Variables)
 
 IMPL_MOVE_RESET_FUNC(Variables)
 
+bool Variables::setParent(Variables *parent) {
+    //! 防止父节点链形成环
+    for (auto p = parent; p != nullptr; p = p->parent_) {
+        if (p == this)
+            return false;
+    }
+
+    parent_ = parent;
+    return true;
+}
+
 void Variables::swap(Variables &other) {
     std::swap(var_map_, other.var_map_);
-    std::swap(parent_, other.parent_);
+
+    //! 交换父节点；若交换后会形成环，则置空
+    auto this_parent = parent_;
+    auto other_parent = other.parent_;
+    parent_ = other.parent_ = nullptr;
+    setParent(other_parent);
+    other.setParent(this_parent);
 }
 
 void Variables::copy(const Variables &other) {
-    parent_ = other.parent_;
+    //! 若 other 的父节点链上有本对象，则置空
+    auto other_parent = other.parent_;
+    parent_ = nullptr;
+    setParent(other_parent);
+
     if (other.var_map_ != nullptr) {
         if (var_map_ == nullptr)
             var_map_ = new VariableMap;
